@@ -48,6 +48,9 @@ CLAIMED = {
  "C19": ("property-based testing: input/output stream invariant through generated plugin subsets and orders; anonymiser mapping (function+injective) and lifecycle-structure metamorphic relation",
          "Generated-input/configuration exploration: trigger-shaped and arbitrary traffic through every subset/order of the decoder plugins built from the repository configs; per message only text / missing extended header / (rewrite) timestamp may differ; anonymised vs original trace give identical lifecycle partition and boundaries.",
          "plugins configured from /repo/tests; the repository FIBEX has no CAN channel so the CAN plugin is only exercised as pass-through", "4/C19"),
+ "C14": ("property-based testing at binary level: generated input files and option combinations vs. the harness' own merge/selection oracle; metamorphic relation on permuted file arguments",
+         "Generated-configuration exploration against the adlt binary rebuilt from the working tree: stdout lines, re-read -o file and lifecycle listing are compared with an independent model of file grouping/chaining/merging, index window, lifecycle set and filter-set rules; permuted file arguments must give byte-identical output.",
+         "clean traces only (lifecycle ground truth); text lines rendered with the library's header/payload text functions; -f and --eac form one filter set", "4/C14"),
 }
 PENDING = {}
 def main():
